@@ -3,6 +3,7 @@ package props
 import (
 	"bytes"
 	"fmt"
+	"strings"
 	"testing"
 
 	astisub "github.com/asticode/go-astisub"
@@ -148,8 +149,35 @@ func TestC02(t *testing.T) {
 	runWitnesses(t, "C02")
 	rapidCheck(t, "C02/read", tier(3000, 300000), func(rt *rapid.T) {
 		c := c02ReadCase{Doc: genVTTDoc(rt, false), Rend: genVTTRendering(rt)}
+		if len(c.Doc.Cues) > 0 && rapid.IntRange(0, 24).Draw(rt, "huge") == 1 {
+			base := c.Doc.Cues
+			before := len(renderVTT(c.Doc, c.Rend))
+			c.Doc.Cues = append(c.Doc.Cues, base...)
+			for k := 70000 / (len(renderVTT(c.Doc, c.Rend)) - before + 1); k > 0; k-- {
+				c.Doc.Cues = append(c.Doc.Cues, base...)
+			}
+			if c.Rend.IDs {
+				for i := range c.Doc.Cues {
+					if c.Doc.Cues[i].ID != 0 {
+						c.Doc.Cues[i].ID = i + 1
+					}
+				}
+			}
+		}
+		aligned := false
+		if len(c.Doc.Cues) > 0 && strings.Contains(c.Rend.EOL, "\r") && rapid.IntRange(0, 5).Draw(rt, "align") == 0 {
+			aligned = alignCR(rt, func() []byte { return renderVTT(c.Doc, c.Rend) }, func(n int) {
+				c.Doc.Cues[0].Lines[0].Runs[0].Text += strings.Repeat("x", n)
+			})
+		}
 		b := renderVTT(c.Doc, c.Rend)
 		nt, ls := c02Labels(c.Doc, &c.Rend)
+		if aligned {
+			ls = append(ls, "cr-at-end-of-4096-byte-block")
+		}
+		if len(b) > 65536 {
+			ls = append(ls, "over-64KiB")
+		}
 		ev.Case(nt, string(b), append(ls, "read")...)
 		if nt && len(c.Doc.Cues) <= 2 {
 			ev.Sample("read", map[string]any{"document": string(b), "model": c.Doc})
